@@ -90,7 +90,7 @@ class FlowRule(TypingProtocol):
 # Flow validation constants
 MAX_PACKET_LENGTH: int = 0xFFFF  # Maximum packet length (16-bit value)
 MAX_DSCP_VALUE: int = 0x3F  # Maximum DSCP value (6 bits, 0b00111111)
-MAX_TRAFFIC_CLASS: int = 0xFFFF  # Maximum traffic class value (16-bit)
+MAX_TRAFFIC_CLASS: int = 0xFF  # Maximum traffic class value (8 bits, RFC 8956 component 11 has one byte values)
 MAX_FLOW_LABEL: int = 0xFFFFF  # Maximum flow label value (20 bits)
 
 
@@ -528,6 +528,18 @@ def converter(
     return _integer
 
 
+def one_byte(function: Callable[[str], int]) -> Callable[[str], int]:
+    """Wrap a value parser for the components whose values travel on a single byte."""
+
+    def _checked(value: str) -> int:
+        number = function(value)
+        if not 0 <= number <= 0xFF:
+            raise ValueError(f'{value} does not fit in the one byte this flow component carries')
+        return number
+
+    return _checked
+
+
 def decoder(function: Callable[[bytes], int], klass: Type[BaseValue] = NumericValue) -> Callable[[bytes], BaseValue]:
     def _inner(value: bytes) -> BaseValue:
         # klass is always a BaseValue subclass, return type is guaranteed
@@ -540,7 +552,7 @@ def decoder(function: Callable[[bytes], int], klass: Type[BaseValue] = NumericVa
 def packet_length(data: str) -> int:
     _str_bad_length = 'cloudflare already found that invalid max-packet length for for you ..'
     number = int(data)
-    if number > MAX_PACKET_LENGTH:
+    if number < 0 or number > MAX_PACKET_LENGTH:
         raise ValueError(_str_bad_length)
     return number
 
@@ -616,7 +628,7 @@ class FlowIPProtocol(IOperationByte, NumericString, FlowIPv4):
 
     ID: ClassVar[int] = 0x03
     NAME: ClassVar[str] = 'protocol'
-    converter: ClassVar[Callable[[str], BaseValue]] = converter(Protocol.from_string, Protocol)
+    converter: ClassVar[Callable[[str], BaseValue]] = converter(one_byte(Protocol.from_string), Protocol)
     # _number, not ord: RFC 8955 lets the operator announce any of the four widths, and
     # ord() reads exactly one byte. The width is checked against the RFC, not against
     # what this component encodes, so the decoder has to read whatever arrives.
@@ -628,7 +640,7 @@ class FlowNextHeader(IOperationByte, NumericString, FlowIPv6):
 
     ID: ClassVar[int] = 0x03
     NAME: ClassVar[str] = 'next-header'
-    converter: ClassVar[Callable[[str], BaseValue]] = converter(Protocol.from_string, Protocol)
+    converter: ClassVar[Callable[[str], BaseValue]] = converter(one_byte(Protocol.from_string), Protocol)
     # _number, not ord: RFC 8955 lets the operator announce any of the four widths, and
     # ord() reads exactly one byte. The width is checked against the RFC, not against
     # what this component encodes, so the decoder has to read whatever arrives.
@@ -661,14 +673,14 @@ class FlowSourcePort(IOperationByteShort, NumericString, FlowIPv4, FlowIPv6):
 class FlowICMPType(IOperationByte, NumericString, FlowIPv4, FlowIPv6):
     ID: ClassVar[int] = 0x07
     NAME: ClassVar[str] = 'icmp-type'
-    converter: ClassVar[Callable[[str], BaseValue]] = converter(ICMPType.from_string, ICMPType)
+    converter: ClassVar[Callable[[str], BaseValue]] = converter(one_byte(ICMPType.from_string), ICMPType)
     decoder: ClassVar[Callable[[bytes], BaseValue]] = decoder(_number, ICMPType)
 
 
 class FlowICMPCode(IOperationByte, NumericString, FlowIPv4, FlowIPv6):
     ID: ClassVar[int] = 0x08
     NAME: ClassVar[str] = 'icmp-code'
-    converter: ClassVar[Callable[[str], BaseValue]] = converter(ICMPCode.from_string, ICMPCode)
+    converter: ClassVar[Callable[[str], BaseValue]] = converter(one_byte(ICMPCode.from_string), ICMPCode)
     decoder: ClassVar[Callable[[bytes], BaseValue]] = decoder(_number, ICMPCode)
 
 
